@@ -6,7 +6,22 @@ compose_comp — end-to-end correspondence of the COMPOSED turn model (`lean/Cle
 
 Gates opened in shares of the worlds (the v1 shares stay): the three caches (50 %), GEL incl. the merge/split/promotion block
 (35 %), the scheduler with logical slice budgets (30 %), the T2 hybrid reranker over the GEL store (60 % of GEL worlds) and
-fusion + MMR (25 %), configured planner thresholds (40 %).
+fusion + MMR (25 %), configured planner thresholds (40 %), the reflection tail (25 %).
+Step 5 (snapshots + boot): every committed cadence turn's `state_<agent>.json` BODY is compared key-order- and bit-exactly with
+the model's `snapBody` (C06's `Clem.Snap.payloadOf` on the turn's own values); 30 % of the histories start in a fresh process
+(`boot`: the boot hook runs on an empty snapshot directory), 50 % of the multi-turn histories are cut by a process boundary
+(`restart_at`: fresh state / ctx / caches / memory index, the snapshot directory of the first process; the model boots from its
+OWN predicted body via `bootOf` = C06's `loadFrom`).
+Step 6 (memory growth): reflection worlds no longer hide the written entries — `owner_scope` any / agent (agent id "agent" in a
+share) / world, recency window opened and T2 stage cache ON under repeated texts in shares; the model keeps the written entries
+as state (`State.mem`) and retrieves over `initial ++ written so far`; id / cluster / quarter / token set / cosine of the
+written episodes are oracles measured on the real index (`memEps`), their text / owner literal / vector presence are the model's.
+Step 7 (several agents on one state): 30 % of the multi-turn histories without a process boundary alternate 2-3 agent ids
+(`turn["agent"]` -> the turn's `ctx.agent_id`): owner scope, reflection ids, snapshot `agent` field and FILE (`state_<agent>.json`)
+follow the turn's agent; store / version / GEL / memory index / T1 cache / T2 stage cache (owner in its key, fix 1b85992) are
+shared.  The orchestrator's turn-level T2 cache (key = version_etag + text: C05's recorded findings `turn:agent`,
+`turn:owner_scope`) is kept OFF in these histories — with it on, agent B is served agent A's hits
+(`C01_compose_agents_needs_orch_cache_off`).  Model: `runTurnsMA` (= `runTurns` when no turn names an agent).
 
 A case = a small world (1-3 active graphs with labelled nodes and weighted edges, node ids shared between graphs;
 0-8 episodes of several owners embedded with the repo's deterministic adapter), a validated config (stage caches /
@@ -34,7 +49,9 @@ monitors (Lean, on the REAL turn): link.t1, link.query, link.bundle, link.plan, 
         link.t2stats, and C18's gel.mon monitors c18.canon / bounded / handoff_topk / obs_spec / tick_spec on the real
         state.graph before/after observe and tick;  (Python) records.turn_agent / streams / rollup / apply_version,
         line.budget, cache.hit_justified / size / invalidation, gel.order / handoff / tick_args / maintenance, quality.query,
-        hybrid.handoff / called, records.hybrid, replay.real_deterministic (the same history replayed
+        hybrid.handoff / called, records.hybrid, boot.once, memory.append_only / entry_shape / visible, agents.snapshot_files; (Lean, step 5) snap.fields
+        (the real body against the real turn's own records + C06's writer on the real state.graph), boot.load (state after the
+        real boot hook = `bootOf` of the real body); replay.real_deterministic (the same history replayed
         on a freshly built world gives identical records, lines and state — C01 on the real engine).
 """
 from __future__ import annotations
@@ -60,9 +77,13 @@ MONITORS = ["c17.yield", "link.t1", "link.query", "link.t2stats", "link.bundle",
             "c03.envelope", "c11.hits", "c12.budget", "c13.plan"]
 
 ASSUMPTIONS = [
-    "composed turn (compose.turn / compose.hist): reflection, the perf/metrics gate, the LLM backend, node attrs.tags and the boot "
-    "snapshot loader are OFF / absent; ctx.now is a fixed string; the world (graphs, memory index, config, agent) does not change "
-    "during a history.  In shares of the worlds GEL (graph.enabled: observe on all T2 hits, tick and merge/split/promotion before "
+    "composed turn (compose.turn / compose.hist): the perf/metrics gate, the LLM backend and node attrs.tags are OFF / absent; "
+    "ctx.now is a fixed string; the world (graphs, INITIAL memory episodes, config, agent) does not change during a history; the "
+    "memory index grows only through the reflection tail (modelled as state); the snapshot directory holds at most the one "
+    "`state_<agent>.json` the history itself wrote (single agent, no delta/compressed snapshots); a process boundary carries "
+    "nothing but that directory.  Multi-agent histories: t4.cache (the orchestrator's turn-level cache) OFF — its key lacks the "
+    "agent (C05 findings turn:agent / turn:owner_scope) — and no process boundary (which `state_*.json` a boot would pick depends "
+    "on file mtimes).  In shares of the worlds GEL (graph.enabled: observe on all T2 hits, tick and merge/split/promotion before "
     "Apply; merge_candidates/split_candidates are oracles as in C18), the scheduler (scheduler.enabled with LOGICAL slice budgets: "
     "wall_ms / quantum_ms are huge and the model takes the measured elapsed time as 0 ms), and the T2 rerank layers (hybrid over the "
     "GEL store of the state; fusion with BM25 scores and MMR with token sets as oracles, as in C11) are ON",
@@ -91,6 +112,10 @@ MODELLED = {
     "clematis/engine/stages/t3/policy.py": ["_policy_thresholds", "deliberate"],
     "clematis/engine/stages/t3/dialogue.py": ["speak"],
     "clematis/engine/stages/t4.py": ["_get_plan_ops", "_get_plan_deltas", "_get_turn", "_get_last_turn_map"],
+    "clematis/engine/apply.py": ["apply_changes", "_should_snapshot"],
+    "clematis/engine/snapshot.py": ["write_snapshot", "load_latest_snapshot"],
+    "clematis/engine/orchestrator/reflection.py": ["write_reflection_entries", "_normalize_entry"],
+    "clematis/memory/index.py": ["InMemoryIndex.add"],
 }
 
 
@@ -271,18 +296,40 @@ def gen_case(rng: random.Random, i: int, max_turns: int) -> dict:
                                 "mmr": {"enabled": rng.random() < 0.6, "lambda": rng.choice([0.0, 0.5, 0.5, 1.0, 0.3]),
                                         "k": rng.choice([None, None, 1, 2, 3])}}
     refl_flag = None
+    refl_visible = False
     if rng.random() < 0.25:
         # reflection tail: gate (allow + stashed planner flag), summary over the utterance + T2 snippets, ops cap.
-        # The written episodes are owned by the agent; retrieval is scoped to "world", so they stay invisible to T2.
+        # The written episodes are owned by the literal "agent" (reflection.py), appended to the memory index and
+        # visible to later retrievals under owner_scope "any" — or "agent" when the agent's id is that literal.
         if agent == "world":
             agent = "A"
-        cfg["t2"]["owner_scope"] = "world"
+        mv = rng.random()
+        refl_visible = mv < 0.65
+        if mv < 0.45:
+            cfg["t2"]["owner_scope"] = "any"
+        elif mv < 0.65:
+            agent = "agent"
+            cfg["t2"]["owner_scope"] = "agent"
+            for e in eps:
+                if e.get("owner") in ("A", "B", "world") and rng.random() < 0.5:
+                    e["owner"] = "agent"
+        elif mv < 0.8:
+            cfg["t2"]["owner_scope"] = "agent"   # agent id is not "agent": the entries stay invisible
+        else:
+            cfg["t2"]["owner_scope"] = "world"
+        if rng.random() < 0.7:
+            # make the written entries reachable: their ts is the turn clock (`now_iso` of now_ms = 0, year 1970), so
+            # the recency window is opened; low threshold, room in k
+            cfg["t2"]["exact_recent_days"] = rng.choice([0, 0, 100000])
+            cfg["t2"]["sim_threshold"] = rng.choice([-1.0, -1.0, 0.0])
+            cfg["t2"]["k_retrieval"] = rng.choice([4, 8, 10])
+            cfg["t2"]["tiers"] = list(TIERS) if rng.random() < 0.7 else ["exact_semantic"]
         cfg["t3"]["allow_reflection"] = rng.random() < 0.85
-        cfg["t3"]["reflection"] = {"backend": "rulebased", "summary_tokens": rng.choice([128, 128, 8, 3, 0]),
-                                   "topk_snippets": rng.choice([3, 3, 1, 0]), "embed": rng.random() < 0.6, "log": True}
+        cfg["t3"]["reflection"] = {"backend": "rulebased", "summary_tokens": rng.choice([128, 128, 128, 8, 3, 0]),
+                                   "topk_snippets": rng.choice([3, 3, 1, 0]), "embed": rng.random() < 0.8, "log": True}
         sc = cfg.setdefault("scheduler", {"enabled": False})
         sc.setdefault("budgets", {})
-        sc["budgets"]["ops_reflection"] = rng.choice([5, 5, 1, 0, None])
+        sc["budgets"]["ops_reflection"] = rng.choice([5, 5, 5, 1, 1, 0, None])
         sc["budgets"]["time_ms_reflection"] = 10 ** 8
         refl_flag = rng.random() < 0.85
         if rng.random() < 0.3:
@@ -296,11 +343,18 @@ def gen_case(rng: random.Random, i: int, max_turns: int) -> dict:
         cfg["t2"]["cache"] = {"enabled": not cfg["t2"].get("hybrid", {}).get("enabled", False)}
         cfg["t4"]["cache"] = {"enabled": True}
         cfg["t4"]["cache_bust_mode"] = rng.choice(["none", "on-apply", "on-apply"])
+    if refl_visible and rng.random() < 0.6:
+        # the T2 stage cache ON while the index grows under repeated query texts: its key carries the index version, so
+        # the turn after a write must recompute (and see the new entry) instead of serving the stale list
+        cfg["t2"]["cache"] = {"enabled": not cfg["t2"].get("hybrid", {}).get("enabled", False)}
+        repeat_p = 0.85
     meta = None
     if rng.random() < 0.6:
         meta = {"cooldowns": {k: rng.choice([0, 1, 2, 3, "x"]) for k in rng.sample(["EditGraph", "Speak", "Other"],
                                                                                      rng.choice([1, 2]))}}
     nt = rng.randint(1, max_turns)
+    if refl_flag is not None and rng.random() < 0.7:
+        nt = max(nt, min(3, max_turns))    # later turns that can retrieve what earlier ones wrote
     first = rng.choice([1, 1, 2, 5])
     if meta is not None and rng.random() < 0.5:
         meta["cooldowns"]["EditGraph"] = first + rng.choice([-3, -2, -1, 0, 1])   # last use close to this history
@@ -314,7 +368,7 @@ def gen_case(rng: random.Random, i: int, max_turns: int) -> dict:
                 # the same targets again (weights accumulate in the store over the history; clamp at +-1)
                 hook["deltas"] = copy.deepcopy(hot["deltas"]) + hook["deltas"][:1]
         text = turns[-1]["text"] if (turns and rng.random() < repeat_p) else _gen_text(rng)   # repeats: cache hits
-        turns.append({"text": text, "turn_id": first + t, "dry": rng.random() < (0.25 if (caches or refl_flag is not None) else 0.07), "hook": hook})
+        turns.append({"text": text, "turn_id": first + t, "dry": rng.random() < (0.25 if caches else (0.12 if refl_flag is not None else 0.07)), "hook": hook})
     # some memories repeat a turn's text (cosine 1.0 when T1 appends no label): high-evidence plans
     if gel_world and turns and turns[0]["text"].strip():
         # a few visible memories close to the first turn's text: positive cosines, pairs to co-activate, edges for the
@@ -328,8 +382,26 @@ def gen_case(rng: random.Random, i: int, max_turns: int) -> dict:
     for e in (eps[4:] if gel_world else eps):
         if rng.random() < (0.6 if gel_world else 0.3):
             e["text"] = rng.choice(turns)["text"].strip() or e["text"]
+    # step 5: process boundaries.  `boot`: the history starts in a fresh process (the boot hook runs on the first turn; the
+    # snapshot directory is empty); `restart_at` = k: the process is replaced after k turns — a fresh state/ctx/caches/
+    # memory index whose snapshot directory is the one the first process wrote.
+    boot = rng.random() < 0.3
+    restart_at = None
+    if nt >= 2 and rng.random() < 0.5:
+        restart_at = rng.randint(1, nt - 1)
+    # step 7: several agents alternating on ONE state (owner scopes per turn, per-agent snapshot files, shared store /
+    # version / GEL / memory index / T1 + T2 stage caches).  The orchestrator's turn-level T2 cache is keyed by
+    # (version_etag, text) only — C05's recorded findings `turn:agent` / `turn:owner_scope` — and is kept OFF here.
+    if nt >= 2 and restart_at is None and rng.random() < 0.3:
+        pool = [agent] + rng.sample([a for a in ["A", "B", "C", "agent"] if a != agent], rng.choice([1, 2]))
+        for i, t in enumerate(turns):
+            t["agent"] = pool[i % len(pool)] if rng.random() < 0.7 else rng.choice(pool)
+        cfg["t4"]["cache"] = {"enabled": False}
+        for e in eps:
+            if e.get("owner") is not None and rng.random() < 0.5:
+                e["owner"] = rng.choice(pool)
     return {"agent": agent, "graphs": graphs, "eps": eps, "cfg": cfg, "meta": meta, "turns": turns,
-            "k_surface": 32, "caches": caches, "refl_flag": refl_flag}
+            "k_surface": 32, "caches": caches, "refl_flag": refl_flag, "boot": boot, "restart_at": restart_at}
 
 
 # ------------------------------------------------------------------------------------------------
@@ -389,6 +461,27 @@ def _recorders(rec: dict, hook: Optional[dict], world):
         old = getattr(obj, name, None)
         setattr(obj, name, val)
         undo.append((obj, name, had, old))
+
+    real_load = ocore.load_latest_snapshot
+
+    def load_rec(ctx, state):
+        import json
+        body = None
+        try:
+            # the only candidate file these worlds ever hold (`_pick_latest_snapshot_path`: state_*.json)
+            p = world.snap_dir / f"state_{world.agent}.json"
+            if p.exists():
+                body = importlib.import_module("harness.props.c06").enc(json.loads(p.read_text(encoding="utf-8")))
+        except Exception:
+            body = {"unreadable": True}
+        r = real_load(ctx, state)
+        st = state.get("store") if isinstance(state, dict) else None
+        rec["boot"] = {"version": state.get("version_etag"), "body": body,
+                       "w": [[list(k), f2b(float(v))] for k, v in getattr(st, "w", {}).items()],
+                       "gel": _gel_snap(state)}
+        return r
+
+    patch(ocore, "load_latest_snapshot", load_rec)
 
     RealEnc = t2core.BGEAdapter
 
@@ -600,14 +693,16 @@ def _ckey(d: list) -> str:
     return f"{d[0]}:{d[1]}:{d[2]}"
 
 
-def build_world(scratch, case: dict):
+def build_world(scratch, case: dict, snap_files: Optional[dict] = None, booted: Optional[bool] = None):
     from clematis.adapters.embeddings import BGEAdapter
     from clematis.graph.store import Node, Edge
     c11 = _c11()
     enc = BGEAdapter(dim=int(case.get("k_surface", 32)))
     eps11 = [_ep_c11(case, e, enc) for e in case["eps"]]
     spec = {
-        "cfg": copy.deepcopy(case["cfg"]), "agent": case["agent"], "now": NOW, "now_ms": 0, "boot_loaded": True,
+        "cfg": copy.deepcopy(case["cfg"]), "agent": case["agent"], "now": NOW, "now_ms": 0,
+        "boot_loaded": (not case.get("boot")) if booted is None else booted,
+        "snap_files": dict(snap_files or {}),
         "graph": {"nodes": [], "edges": []},
         "episodes": [c11._ep_dict(e) for e in eps11],
         "state_extra": dict(({"meta": copy.deepcopy(case["meta"])} if case.get("meta") is not None else {}),
@@ -626,6 +721,94 @@ def build_world(scratch, case: dict):
     return w, eps11
 
 
+def _gel_snap(state):
+    """c18's view of the GEL store + the schema tag of its meta block (the boot hook installs "v1.1" containers, the
+    lazily created store says "v1"; c18 flags the former as unexpected because C18's worlds never boot)."""
+    c18 = _c18()
+    g = c18.snap(state)
+    if g is None:
+        return None
+    meta = (c18.get_store(state) or {}).get("meta") or {}
+    g["schema"] = meta.get("schema")
+    if meta.get("promotions") in ([], None) and meta.get("schema") in ("v1", "v1.1"):
+        g.pop("unexpected_meta", None)
+    return g
+
+
+def _mem_raw(w, n0: int) -> List[dict]:
+    """the episodes the memory index holds beyond the initial ones (what `write_reflection_entries` added), in index order"""
+    idx = w.state.get("mem_index")
+    eps = getattr(idx, "_eps", None) or []
+    return list(eps[n0:])
+
+
+def _mem_c11(e: dict) -> dict:
+    """a written episode in c11's case format"""
+    d = {"id": e.get("id"), "text": e.get("text"), "tags": list(e.get("tags") or [])}
+    if "owner" in e:
+        d["owner"] = e["owner"]
+    if "ts" in e:
+        d["ts"] = e["ts"]
+    v = e.get("vec_full")
+    d["vec"] = None if v is None else [float(x) for x in v]
+    return d
+
+
+def _mem_view(e: dict) -> dict:
+    return {"id": e.get("id"), "owner": e.get("owner"), "ts": e.get("ts"), "text": e.get("text"),
+            "tags": list(e.get("tags") or []), "kind": e.get("kind"), "vec": e.get("vec_full") is not None,
+            "keys": list(e.keys())}
+
+
+def _agent_of(case: dict, t: dict) -> str:
+    return str(t.get("agent") or case["agent"])
+
+
+def _retok(vocab: Dict[str, int], case11: dict, eps_req: List[dict]) -> List[dict]:
+    """c11 numbers the MMR tokens per request; a history whose index grows needs ONE numbering (the initial episodes are
+    sent once, with the first turn): re-encode the token sets of a turn's episodes against a history-wide vocabulary."""
+    from clematis.engine.stages.t2.quality_norm import tokenize
+    from clematis.engine.stages.t2.quality_ops import _STOP_EN_BASIC
+    stop = _STOP_EN_BASIC if case11["q"]["stopwords"] == "en-basic" else None
+    for e in eps_req:
+        ws = sorted(set(tokenize(e["text"], stopset=stop))) if e.get("text") else []
+        e["toks"] = sorted(vocab.setdefault(w_, len(vocab)) for w_ in ws)
+    return eps_req
+
+
+def _snap_stat(w):
+    p = w.snap_dir / f"state_{w.agent}.json"
+    try:
+        st = p.stat()
+        return (st.st_ino, st.st_mtime_ns, st.st_size)
+    except OSError:
+        return None
+
+
+def _snap_written(w, before) -> Optional[dict]:
+    """The snapshot body the turn wrote (wire encoding, key order as in the file), None when the file was not rewritten.
+    `write_snapshot` replaces the file atomically: a rewrite changes (inode, mtime)."""
+    import json
+    after = _snap_stat(w)
+    if after is None or after == before:
+        return None
+    p = w.snap_dir / f"state_{w.agent}.json"
+    try:
+        return {"body": importlib.import_module("harness.props.c06").enc(json.loads(p.read_text(encoding="utf-8")))}
+    except Exception as e:
+        return {"unreadable": f"{type(e).__name__}: {str(e)[:120]}"}
+
+
+def _restart_world(scratch, case: dict, w):
+    """A fresh process on the snapshot directory the previous process left behind (every file, byte for byte)."""
+    import base64
+    from pathlib import Path
+    files = {p.name: {"b64": base64.b64encode(p.read_bytes()).decode()} for p in sorted(w.snap_dir.iterdir()) if p.is_file()}
+    d = Path(scratch) / "restart"
+    d.mkdir(parents=True, exist_ok=True)
+    return build_world(d, case, snap_files=files, booted=False)
+
+
 def run_real(scratch, case: dict) -> dict:
     """Drive the real engine over the whole history; returns observations per turn and the oracles."""
     import clematis.memory.index as mindex
@@ -637,32 +820,51 @@ def run_real(scratch, case: dict) -> dict:
     t2c = cfgp.get("t2", {})
     out_turns = []
     lex_seen: Dict[str, dict] = {}
-    for t in case["turns"]:
-        rec: Dict[str, Any] = {"q": [], "deltaIds": [], "t1": {"pops": 0, "iters": 0, "props": 0}, "hits": None,
+    vocab: Dict[str, int] = {}     # MMR token codes, stable over the whole history (the index grows: new words, new codes)
+    for ti, t in enumerate(case["turns"]):
+        if case.get("restart_at") is not None and ti == case["restart_at"]:
+            w, eps11 = _restart_world(scratch, case, w)
+            lex_seen = {}
+        ag = _agent_of(case, t)
+        w.agent = ag            # the rig builds the turn's ctx (`agent_id`) and names the snapshot file from this
+        rec: Dict[str, Any] = {"boot": None, "q": [], "deltaIds": [], "t1": {"pops": 0, "iters": 0, "props": 0}, "hits": None,
                                "kUsed": 0, "residual": [], "scores": [], "nodeIds": None, "sMax": f2b(0.0),
                                "ops0": None, "ops": None, "t4": None, "calls": [], "graphIds": [], "hits2": None, "stage_called": False, "seq": [], "gel_obs": None,
                                "gel_tick": None, "merges": [], "splits": [], "lex": {}, "hyb_calls": [], "aq_q": [], "refl": None}
         w.spec["ctx_extra"] = {"_dry_run_until_t4": True} if t.get("dry") else {}
         ver_before = w.state.get("version_etag")
+        snap_before = _snap_stat(w)
+        mem_raw_before = _mem_raw(w, len(case["eps"]))
+        mem11 = [_mem_c11(e) for e in mem_raw_before]
         with _recorders(rec, t.get("hook"), w):
             run = TR.run_turn(w, t["text"], t["turn_id"])
+        snap_now = _snap_written(w, snap_before)
+        gel_raw = None
+        if snap_now is not None and w.state.get("graph") is not None:
+            try:
+                gel_raw = importlib.import_module("harness.props.c06").enc(copy.deepcopy(w.state.get("graph")))
+            except Exception:
+                gel_raw = None
         # oracles for exactly the texts the real encoder saw
         queries = []
         for q in dict.fromkeys(rec["q"]):
             qv = enc.encode([q])[0]
-            case11 = _case11(case, cfgp, eps11)
+            case11 = _case11(case, cfgp, eps11 + mem11, ag)
             req = c11.build_request(case11, lambda raw, qv=qv: float(mindex._cosine(qv, _np().frombuffer(raw, dtype=_np().float32))), {})
             # (a T2 stage-cache hit serves the result without calling BM25 again: the scores measured for this query
             #  text earlier in the history are the oracle — the memory index does not change)
-            lex_seen.update(rec["lex"])
+            # (BM25 runs over the candidates of the query's owner — the agent under owner_scope "agent", else scope-wide —
+            #  which is also what the stage-cache key carries)
+            okey = ag if str(t2c.get("owner_scope", "any")).lower() == "agent" else str(t2c.get("owner_scope", "any")).lower()
+            lex_seen.update({(okey, k): v for k, v in rec["lex"].items()})
             queries.append({"q": q, "cos": [e["cos"] for e in req["eps"]], "cscore": req["cfg"]["cscore"],
-                            "lex": [[k, v] for k, v in (lex_seen.get(q) or {}).items()]})
+                            "lex": [[k, v] for k, v in (lex_seen.get((okey, q)) or {}).items()]})
             rec.setdefault("_h", req["h"])
             rec.setdefault("_q", req["q"])
             rec.setdefault("_eps_req", req["eps"])
             rec.setdefault("_nowUs", req["cfg"]["nowUs"])
         if "_eps_req" not in rec:
-            req = c11.build_request(_case11(case, cfgp, eps11), lambda raw: 0.0, {})
+            req = c11.build_request(_case11(case, cfgp, eps11 + mem11, ag), lambda raw: 0.0, {})
             rec["_eps_req"], rec["_nowUs"] = req["eps"], req["cfg"]["nowUs"]
             rec["_h"], rec["_q"] = req["h"], req["q"]
         out_turns.append({
@@ -670,12 +872,18 @@ def run_real(scratch, case: dict) -> dict:
             "logs": {s: run.logs.get(s, []) for s in STREAMS},
             "t3_plan": run.logs.get("t3_plan", []),
             "state": {"w": run.state.get("store_w"), "version": run.state.get("version_etag")},
-            "gelLogs": run.logs.get("gel", []), "gel": _c18().snap(w.state),
+            "gelLogs": run.logs.get("gel", []), "gel": _gel_snap(w.state),
             "schedLogs": _sched_logs(run),
             "reflLogs": run.logs.get("t3_reflection", []), "memN": (run.state.get("mem_n") or 0) - len(case["eps"]),
-            "verBefore": ver_before, "rec": rec, "queries": queries,
+            # (a booting turn starts from the version the boot hook restored)
+            "verBefore": ver_before if rec["boot"] is None else rec["boot"]["version"], "rec": rec,
+            "storeW": [[list(k), f2b(float(v))] for k, v in getattr(w.store, "w", {}).items()], "gelRaw": gel_raw,
+            "snapFiles": list(run.state.get("snap_files") or []),
+            "memBefore": [_mem_view(e) for e in mem_raw_before],
+            "memAfter": [_mem_view(e) for e in _mem_raw(w, len(case["eps"]))],
+            "memEps": _retok(vocab, _case11(case, cfgp, []), list(rec.get("_eps_req", [])))[len(case["eps"]):], "queries": queries, "snap": snap_now,
         })
-    return {"turns": out_turns, "cfg_plain": cfgp, "snap": f"state_{w.agent}.json"}
+    return {"turns": out_turns, "cfg_plain": cfgp, "snap": f"state_{case['agent']}.json"}
 
 
 def _sched_logs(run) -> List[dict]:
@@ -692,10 +900,14 @@ def run_real_plain(scratch, case: dict) -> List[dict]:
     """The same history once more on a freshly built world, without recorders: what C01 says must be identical."""
     w, _ = build_world(scratch, case)
     out = []
-    for t in case["turns"]:
+    for ti, t in enumerate(case["turns"]):
+        if case.get("restart_at") is not None and ti == case["restart_at"]:
+            w, _ = _restart_world(scratch, case, w)
+        w.agent = _agent_of(case, t)
+        snap_before = _snap_stat(w)
         w.spec["ctx_extra"] = {"_dry_run_until_t4": True} if t.get("dry") else {}
         hook = t.get("hook")
-        with _recorders({"q": [], "deltaIds": [], "t1": {}, "hits": None, "kUsed": 0, "residual": [], "scores": [],
+        with _recorders({"boot": None, "q": [], "deltaIds": [], "t1": {}, "hits": None, "kUsed": 0, "residual": [], "scores": [],
                          "nodeIds": None, "sMax": f2b(0.0), "ops0": None, "ops": None, "t4": None, "calls": [],
                          "graphIds": [], "hits2": None, "stage_called": False, "seq": [], "gel_obs": None,
                          "gel_tick": None, "merges": [], "splits": [], "lex": {}, "hyb_calls": [], "aq_q": [], "refl": None}, hook, w) if hook is not None \
@@ -704,8 +916,10 @@ def run_real_plain(scratch, case: dict) -> List[dict]:
         out.append({"raised": run.raised, "line": (run.result or {}).get("line"),
                     "logs": {s: run.logs.get(s, []) for s in STREAMS},
                     "state": {"w": run.state.get("store_w"), "version": run.state.get("version_etag")},
-                    "gelLogs": run.logs.get("gel", []), "gel": _c18().snap(w.state), "schedLogs": _sched_logs(run),
-                    "reflLogs": run.logs.get("t3_reflection", []), "memN": (run.state.get("mem_n") or 0) - len(case["eps"])})
+                    "gelLogs": run.logs.get("gel", []), "gel": _gel_snap(w.state), "schedLogs": _sched_logs(run),
+                    "reflLogs": run.logs.get("t3_reflection", []), "memN": (run.state.get("mem_n") or 0) - len(case["eps"]),
+                    "snap": _snap_written(w, snap_before),
+                    "memAfter": [_mem_view(e) for e in _mem_raw(w, len(case["eps"]))]})
     return out
 
 
@@ -714,13 +928,13 @@ def _np():
     return np
 
 
-def _case11(case: dict, cfgp: dict, eps11: List[dict]) -> dict:
+def _case11(case: dict, cfgp: dict, eps11: List[dict], agent: Optional[str] = None) -> dict:
     t2 = cfgp.get("t2", {})
     rk = t2.get("ranking", {}) or {}
     hy = t2.get("hybrid", {}) or {}
     ql = t2.get("quality", {}) or {}
     return {
-        "now": NOW, "scope": str(t2.get("owner_scope", "any")), "agent": case["agent"],
+        "now": NOW, "scope": str(t2.get("owner_scope", "any")), "agent": agent or case["agent"],
         "k": int(t2.get("k_retrieval", 64)), "theta": f2b(float(t2.get("sim_threshold", 0.3))),
         "days": int(t2.get("exact_recent_days", 30)), "topM": int(t2.get("clusters_top_m", 3)),
         "tiers": list(t2.get("tiers", TIERS)),
@@ -785,7 +999,7 @@ def build_request(case: dict, real: dict, route: str) -> dict:
     scope_raw = str(t2.get("owner_scope", "any"))
     scope_l = scope_raw.lower()
     first = real["turns"][0]["rec"] if real["turns"] else {}
-    eps_req = first.get("_eps_req", [])
+    eps_req = list(first.get("_eps_req", []))[:len(case["eps"])]
     meta = case.get("meta") or {}
     last = [[k, v if isinstance(v, int) and not isinstance(v, bool) else None]
             for k, v in (meta.get("cooldowns") or {}).items()]
@@ -816,6 +1030,7 @@ def build_request(case: dict, real: dict, route: str) -> dict:
         "churn": int(t4.get("churn_cap_edges", 64)),
         "cooldowns": [[k, int(v)] for k, v in (t4.get("cooldowns") or {}).items()],
         "every": int(t4.get("snapshot_every_n_turns", 1)),
+        "bounds": importlib.import_module("harness.props.c06").bounds_req(cfgp),
         "wmin": f2b(-1.0), "wmax": f2b(1.0),
         "t2CacheOn": bool((t2.get("cache", {}) or {}).get("enabled", True)),
         "orchCacheOn": bool((t4.get("cache", {}) or {}).get("enabled", True)),
@@ -838,8 +1053,10 @@ def build_request(case: dict, real: dict, route: str) -> dict:
         turns.append({
             "text": t["text"], "turnId": int(t["turn_id"]), "dryRun": bool(t.get("dry")), "ctxText": "",
             "hook": hook is not None, "hookOps": (hook or {}).get("ops", []), "hookDeltas": (hook or {}).get("deltas", []),
+            "agent": t.get("agent"),
             "orc": {"queries": rt["queries"], "nowUs": rt["rec"].get("_nowUs", 0),
-                    "merges": rt["rec"].get("merges", []), "splits": rt["rec"].get("splits", [])},
+                    "merges": rt["rec"].get("merges", []), "splits": rt["rec"].get("splits", []),
+                    "memEps": rt.get("memEps", [])},
         })
     # canonical records are captured AFTER the repo's identity normalisation (CI=true), which drops `now` from every
     # stream (C16_normalize_now_dropped): the expected records carry no `now`
@@ -847,7 +1064,12 @@ def build_request(case: dict, real: dict, route: str) -> dict:
             "gelMode": str((graph.get("update") or {}).get("mode", "additive")), "gelNow": NOW,
             "policy": str((cfgp.get("scheduler") or {}).get("policy", "round_robin")),
             "degreeNorm": str((t2.get("hybrid") or {}).get("degree_norm", "none"))}
-    return {"c": route, "world": world, "cfg": cfg, "state": {"w": [], "ver": 0}, "turns": turns, "echo": echo}
+    req = {"c": route, "world": world, "cfg": cfg, "state": {"w": [], "ver": 0}, "turns": turns, "echo": echo}
+    if case.get("boot"):
+        req["boot"] = {"body": None}          # fresh process on an empty snapshot directory
+    if case.get("restart_at") is not None:
+        req["restartAt"] = int(case["restart_at"])   # the second process boots from the model's own last body
+    return req
 
 
 def _ystage(rt: dict) -> Optional[str]:
@@ -908,6 +1130,9 @@ def _obs(rt: dict, committed: bool) -> dict:
         "simMeanRec": f2b(float((((rt["logs"].get("t2") or [{}])[0].get("sim_stats")) or {}).get("mean", 0.0))),
         "simMaxRec": f2b(float((((rt["logs"].get("t2") or [{}])[0].get("sim_stats")) or {}).get("max", 0.0))),
         "snapshot": (rt["logs"]["apply"][0].get("snapshot") is not None) if rt["logs"].get("apply") else None,
+        "snapBody": (rt.get("snap") or {}).get("body"), "storeW": rt.get("storeW", []), "gelRaw": rt.get("gelRaw"),
+        "applied": int((rt["logs"]["apply"][0].get("applied") or 0)) if rt["logs"].get("apply") else 0,
+        "approved": (t4 or {}).get("approved", []),
     }
 
 
@@ -991,7 +1216,9 @@ class _Compose(Component):
                            "storeCalls": t["rec"]["calls"], "graphIds": t["rec"]["graphIds"],
                            "hits": (t["rec"]["hits"] if t["rec"]["stage_called"] else None),
                            "t2Calls": len(t["rec"]["q"]), "t3_plan": t["t3_plan"],
-                           "gelLogs": t["gelLogs"], "gel": t["gel"], "schedLogs": t["schedLogs"], "reflLogs": t["reflLogs"], "memN": t["memN"]} for t in real["turns"]]}
+                           "gelLogs": t["gelLogs"], "gel": t["gel"], "schedLogs": t["schedLogs"], "reflLogs": t["reflLogs"], "memN": t["memN"],
+                           "snap": t.get("snap"),
+                           "mem": [{"text": e["text"], "vec": e["vec"]} for e in t.get("memAfter", [])]} for t in real["turns"]]}
 
     @_wrap
     def request(self, case: dict) -> dict:
@@ -1030,12 +1257,20 @@ class _Compose(Component):
             theirs["reflLogs"] = b["logs"].get("t3_reflection", [])
             mine["memN"] = a["memN"]
             theirs["memN"] = b.get("memN")
+            # the memory index beyond the initial episodes: texts and vector presence, in index order
+            mine["mem"] = a.get("mem", [])
+            theirs["mem"] = [{"text": e["text"], "vec": e["vec"]} for e in b.get("mem", [])]
             mine["schedLogs"] = _canon(a["schedLogs"])
             theirs["schedLogs"] = b["logs"].get("scheduler", [])
             theirs["logs"] = {k: v for k, v in b["logs"].items() if k not in ("gel", "scheduler", "t3_reflection")}
             c18 = _c18()
             mine["gel"] = c18.canon_state(a["gel"])
             theirs["gel"] = c18.canon_state(b.get("gel"))
+            if theirs["gel"] is not None:
+                theirs["gel"]["schema"] = "v1.1" if b.get("gelV11") else "v1"
+            # the snapshot body this turn wrote (None: the file was not rewritten), key order and float bits included
+            mine["snap"] = a.get("snap")
+            theirs["snap"] = None if b.get("snapBody") is None else {"body": b["snapBody"]}
             if mine != theirs:
                 return f"turn {i}: " + first_diff(_canon(mine), _canon(theirs))
             for g in a["graphIds"]:
@@ -1076,6 +1311,19 @@ class _Compose(Component):
                 r = dict(base)
                 r.update({"which": m, "turn": i, "obs": ob})
                 out.append((m, r))
+            if not (rt.get("snap") or {}).get("unreadable"):
+                r = dict(base)
+                r.update({"which": "snap.fields", "turn": i, "obs": ob})
+                out.append(("snap.fields", r))
+            bt = rt["rec"].get("boot")
+            if bt is not None and not isinstance(bt.get("body"), dict):
+                g = bt.get("gel") or {}
+                r = dict(base)
+                r.update({"which": "boot.load", "turn": i,
+                          "obs": dict(ob, bootBody=bt["body"], bootVer=bt["version"], bootW=bt["w"],
+                                      bootEdges=[[e["k"], e["w"]] for e in g.get("edges", [])],
+                                      bootNodes=[n[0] for n in g.get("nodes", [])])})
+                out.append(("boot.load", r))
         out.extend(self._gel_monitor_requests(case, real))
         out.extend(self._refl_monitor_requests(case, real))
         return out
@@ -1092,7 +1340,7 @@ class _Compose(Component):
             if rt["raised"]:
                 continue
             rf = rt["rec"]["refl"]
-            tj = {"agent": case["agent"], "turn": str(t["turn_id"]), "nowMs": 0, "iso": None, "dry": bool(t.get("dry")),
+            tj = {"agent": _agent_of(case, t), "turn": str(t["turn_id"]), "nowMs": 0, "iso": None, "dry": bool(t.get("dry")),
                   "t4on": t4on, "plan": False, "sflag": bool(case.get("refl_flag")), "cfg": rc,
                   "utter": (rf or {}).get("utter", ""), "items": (rf or {}).get("snippets", []), "arts": []}
             oj = {"mode": "real", "adapter": None, "elapsedUs": 0, "runFault": False, "indexMissing": False,
@@ -1100,6 +1348,8 @@ class _Compose(Component):
             body = {"t": tj, "o": oj, "called": rf is not None, "nWritten": max(0, rt["memN"] - prev),
                     "logged": bool(rt["reflLogs"]), "texts": ([rf["summary"]] if rf and "summary" in rf else []), "real": True}
             prev = rt["memN"]
+            if case.get("restart_at") is not None and i + 1 == case["restart_at"]:
+                prev = 0   # the next turn runs in a fresh process: its memory index holds the initial episodes only
             for m in ("gate", "cap", "len"):
                 out.append((f"c19.{m}", dict(body, c=f"refl.mon.{m}")))
         return out
@@ -1155,7 +1405,8 @@ class _Compose(Component):
         again = real.get("again")
         if isinstance(again, list):
             first = [{"raised": t["raised"], "line": t["line"], "logs": t["logs"], "state": t["state"],
-                      "gelLogs": t["gelLogs"], "gel": t["gel"], "schedLogs": t["schedLogs"], "reflLogs": t["reflLogs"], "memN": t["memN"]} for t in real["turns"]]
+                      "gelLogs": t["gelLogs"], "gel": t["gel"], "schedLogs": t["schedLogs"], "reflLogs": t["reflLogs"], "memN": t["memN"],
+                      "snap": t.get("snap"), "memAfter": t.get("memAfter")} for t in real["turns"]]
             same = _canon(first) == _canon(again)
             res.append(("replay.real_deterministic", same,
                         "replaying the history on a fresh world differs: " + ("" if same else first_diff(_canon(first), _canon(again)))))
@@ -1178,7 +1429,7 @@ class _Compose(Component):
             res.append(("gel.order", ok, f"turn {i}: call order {seq} (graph.enabled={gel_on}, t4={t4on}, dry={bool(t.get('dry'))})"))
             go = rec["gel_obs"]
             if go is not None:
-                okh = go["turn"] == int(t["turn_id"]) and go["agent"] == case["agent"]
+                okh = go["turn"] == int(t["turn_id"]) and go["agent"] == _agent_of(case, t)
                 if rec["stage_called"] and rec["hits"] is not None:
                     okh = okh and go["items"] == [[h["id"], h["score"]] for h in rec["hits"]]
                 res.append(("gel.handoff", okh, f"turn {i}: observe got {go['items']} turn={go['turn']} agent={go['agent']}; "
@@ -1234,6 +1485,8 @@ class _Compose(Component):
             topk = int((real["cfg_plain"].get("t3", {}).get("reflection") or {}).get("topk_snippets", 3))
             prevn = 0
             for i, (t, rt) in enumerate(zip(case["turns"], real["turns"])):
+                if case.get("restart_at") is not None and i == case["restart_at"]:
+                    prevn = 0   # fresh process: the memory index holds the initial episodes only
                 if rt["raised"]:
                     continue
                 rec, rf = rt["rec"], rt["rec"]["refl"]
@@ -1262,8 +1515,57 @@ class _Compose(Component):
                     why = f"memory index grew by {wrote} (reflect produced {len((rf or {}).get('entries', []))}, ops cap {capv}), t3_reflection says ops_written={logged}"
                 prevn = rt["memN"]
                 res.append(("reflect.handoff", ok, f"turn {i}: {why}"))
+        # memory growth (step 6): what `write_reflection_entries` leaves in the index, and what later retrievals see of it
+        import hashlib
+        scope_cfg = str((real["cfg_plain"].get("t2") or {}).get("owner_scope", "any")).lower()
+        init_ids = {str(e.get("id")) for e in case["eps"]}
+        ts_expected = dt.datetime.fromtimestamp(0, tz=dt.timezone.utc).isoformat()   # the rig's turn clock: now_ms = 0
+        for i, (t, rt) in enumerate(zip(case["turns"], real["turns"])):
+            if rt["raised"] or "memBefore" not in rt:
+                continue
+            mb, ma = rt["memBefore"], rt["memAfter"]
+            res.append(("memory.append_only", ma[:len(mb)] == mb,
+                        f"turn {i}: the index no longer starts with the {len(mb)} entries it held before the turn"))
+            bad = []
+            for slot, e in enumerate(ma[len(mb):]):
+                h = hashlib.sha256("|".join([_agent_of(case, t), str(t["turn_id"]), str(slot), str(e["text"])]).encode("utf-8")).hexdigest()[:12]
+                want = {"id": f"refl-{t['turn_id']}-{_agent_of(case, t)}-{slot}-{h}", "owner": "agent", "ts": ts_expected,
+                        "kind": "summary", "keys": ["id", "owner", "ts", "kind", "tags", "text"] + (["vec_full"] if e["vec"] else [])}
+                got = {k: e.get(k) for k in want}
+                if got != want or not e["tags"]:
+                    bad.append((got, want))
+            res.append(("memory.entry_shape", not bad, f"turn {i}: written episode {bad[:1]}"))
+            if rt["rec"]["stage_called"]:
+                before_ids = {str(e["id"]) for e in mb}
+                new_ids = {str(e["id"]) for e in ma[len(mb):]}
+                vis = scope_cfg == "any" or (scope_cfg == "agent" and _agent_of(case, t) == "agent")
+                hits = [str(h["id"]) for h in (rt["rec"]["hits"] or [])]
+                alien = [h for h in hits if h not in init_ids and h not in before_ids]
+                leak = [h for h in hits if h in before_ids and h not in init_ids and not vis]
+                res.append(("memory.visible", not alien and not leak and not (set(hits) & (new_ids - before_ids - init_ids)),
+                            f"turn {i}: hits {hits}: not in the index at the start of the turn {alien}, "
+                            f"reflection entries outside the owner scope {scope_cfg!r} {leak}"))
+        # several agents on one state (step 7): each agent's snapshot goes to its own file, named after the turn's agent
+        wrote = set()
+        for i, (t, rt) in enumerate(zip(case["turns"], real["turns"])):
+            if rt["raised"] or "snapFiles" not in rt or case.get("restart_at") is not None:
+                continue
+            ag = _agent_of(case, t)
+            if rt.get("snap") is not None:
+                wrote.add(f"state_{ag}.json")
+            have = {n for n in rt["snapFiles"] if n.endswith(".json")}
+            res.append(("agents.snapshot_files", have == wrote,
+                        f"turn {i} (agent {ag}): snapshot directory holds {sorted(have)}, the turns so far wrote {sorted(wrote)}"))
+        for i, rt in enumerate(real["turns"]):
+            # the boot hook runs on the first turn of a process (`_boot_loaded`), and only there
+            want_boot = (i == 0 and bool(case.get("boot"))) or (case.get("restart_at") is not None and i == case["restart_at"])
+            res.append(("boot.once", (rt["rec"].get("boot") is not None) == want_boot,
+                        f"turn {i}: load_latest_snapshot {'ran' if rt['rec'].get('boot') is not None else 'did not run'}, "
+                        f"first turn of a process: {want_boot}"))
         seen_keys: List[Tuple[str, str]] = []     # (version, text) pairs the orchestrator cache holds
         for i, (t, a, rt) in enumerate(zip(case["turns"], impl_out.get("turns", []), real["turns"])):
+            if case.get("restart_at") is not None and i == case["restart_at"]:
+                seen_keys = []   # a fresh process: the cache manager lives on the state, which was replaced
             if orch_on and not a["raised"] and a["logs"].get("t2"):
                 # C05 on the orchestrator's T2 cache, on the real records: a hit only for a (version, text) it was
                 # filled with earlier in this history and not invalidated since; size and invalidation counts add up
@@ -1288,7 +1590,7 @@ class _Compose(Component):
                 continue
             lg, rec = a["logs"], rt["rec"]
             bad = [(s, r) for s in STREAMS for r in lg.get(s, [])
-                   if r.get("turn") != t["turn_id"] or r.get("agent") != case["agent"]]
+                   if r.get("turn") != t["turn_id"] or r.get("agent") != _agent_of(case, t)]
             res.append(("records.turn_agent", not bad, f"turn {i}: record of another turn/agent: {bad[:1]}"))
             yk = _yrank(_ystage(rt))
             committed = t4on and not t.get("dry") and yk >= 4
@@ -1445,6 +1747,51 @@ class _Compose(Component):
                 tg.add("no_snapshot_turn")
             if t.get("hook") and t["hook"]["deltas"] and len(rec["q"]) > 1 and not t4.get("deltas"):
                 tg.add("rag_dropped_hook_deltas")
+            sn = rt.get("snap")
+            if sn and sn.get("body") is not None:
+                tg.add("snapshot_body_compared")
+                try:
+                    bd = importlib.import_module("harness.props.c06").dec(sn["body"])
+                    if (bd.get("gel") or {}).get("edges"):
+                        tg.add("snapshot_gel_edges")
+                    if (bd.get("store") or {}).get("weights"):
+                        tg.add("snapshot_store_weights")
+                    if bd.get("deltas"):
+                        tg.add("snapshot_deltas")
+                except Exception:
+                    pass
+            bt = rec.get("boot")
+            if bt is not None:
+                tg.add("boot_empty_dir" if bt.get("body") is None else "boot_from_snapshot")
+                if bt.get("body") is not None:
+                    if bt["w"]:
+                        tg.add("restart_restored_weights")
+                    if bt["version"] not in ("0", None):
+                        tg.add("restart_restored_version")
+                    if (bt.get("gel") or {}).get("edges"):
+                        tg.add("restart_restored_gel_edges")
+        for rt in real["turns"]:
+            if rt.get("memBefore"):
+                tg.add("memory_grown_before_turn")
+                mids = {str(e["id"]) for e in rt["memBefore"]}
+                if any(str(h["id"]) in mids for h in (rt["rec"]["hits"] or [])):
+                    tg.add("reflection_entry_retrieved")
+                if any(e["vec"] for e in rt["memBefore"]):
+                    tg.add("memory_entry_embedded")
+        ags = {_agent_of(case, t) for t in case["turns"]}
+        if len(ags) > 1:
+            tg.add(f"agents_{len(ags)}")
+            files = {n for rt in real["turns"] for n in rt.get("snapFiles", []) if n.endswith(".json")}
+            if len(files) > 1:
+                tg.add("per_agent_snapshot_files")
+            if str(case["cfg"]["t2"].get("owner_scope")) == "agent":
+                hs = {tuple(sorted(str(h["id"]) for h in (rt["rec"]["hits"] or []))) for rt in real["turns"] if rt["rec"]["stage_called"]}
+                if len(hs) > 1:
+                    tg.add("agents_scope_switch")
+            if case.get("caches"):
+                tg.add("agents_shared_stage_caches")
+        if case.get("restart_at") is not None:
+            tg.add("restart")
         return sorted(tg) or ["default"]
 
     @_wrap
